@@ -71,6 +71,10 @@ def parse_M(o):
 
 
 def eval_cases(ctx, corr, cases, inits, shard=40):
+    ok, out = ctx.coq_make(["C19Corr"])      # the driver builds only Prop_C19 and what it imports
+    if not ok:
+        corr.mismatches.append({"kind": "coq-build C19Corr", "output": out[-1500:]})
+        return corr
     recs = [case_record(c) for c in cases]
     items = []
     for k in range(0, len(recs), shard):
@@ -107,7 +111,7 @@ def _run(ctx):
     lf = os.path.join(ctx.work, "c19_lines.txt")
     with open(lf, "w") as f:
         f.write("\n".join(lines) + "\n")
-    synth, runs, days, every = (6000, 240, 3000, 45) if ctx.thorough else (240, 12, 1500, 12)
+    synth, runs, days, every = (8000, 300, 3000, 40) if ctx.thorough else (400, 16, 2000, 8)
     return waterlib.run_harness(ctx, "c19", ["-seed", str(ctx.seed), "-synth", str(synth), "-runs", str(runs), "-days", str(days),
                                              "-work", ex, "-lines", lf, "-every", str(every)], timeout=3000)
 
@@ -135,12 +139,16 @@ def correspond(ctx):
         if key not in seen and o["tsoil0"][1:-1] != i["tsoil0"][1:-1]:
             seen.add(key)
         c.bump("layers=%d" % i["n"])
+        fh = lambda x: float.fromhex(x) if x[0] in "-0" else float(x.replace("infinity", "inf").replace("neg_", "-"))
+        c.bump("surface=" + ("mean-of-tmin-tmax" if fh(o["surf"]) == (fh(i["tmin"]) + fh(i["tmax"])) / 2 else "albedo-mix"))
+        c.bump("canopy=" + ("closed(LAI>=3)" if fh(i["lai"]) >= 3 else "open"))
         c.bump("tag=" + re.sub(r"\d+", "", i["tag"].split("-")[0]) + ("-" + "-".join(i["tag"].split("-")[1:]) if "-" in i["tag"] else ""))
     c.nontrivial = len(seen)
     synth_runs = [x for x in rows if x["k"] == "synthrun"]
     ctx.extra["traced_runs"] = len(runs)
     ctx.extra["traced_days"] = sum(r_["days"] for r_ in runs)
     ctx.extra["traced_bd_range"] = [min([r_.get("minbd", 9) for r_ in runs] or [0]), max([r_.get("maxbd", 0) for r_ in runs] or [0])]
+    ctx.extra["f17_bd_0.3_run"] = [{"failed": x["failed"], "first_nonfinite_day": x["first_nonfinite_day"]} for x in synth_runs if x["bdmode"] == 3]
     ctx.extra["synthetic_runs"] = len(synth_runs)
     ctx.extra["synthetic_run_days"] = sum(x["days"] for x in synth_runs)
     c.samples = [{k: (v if not isinstance(v, list) else v[:4]) for k, v in cases[j]["in"].items()} for j in (0, len(cases) // 2)] if cases else []
